@@ -1,13 +1,21 @@
 import PsV.Model.Sync
+import PsV.Model.SyncData
 import PsV.Driver.Common
 import Std.Data.HashMap
 /-!
-Driver for C12 (executes `PsV.Sync.step?`, `spur?`, `opOf`, `rank`, `selectSeq`, `anyEnabled`).
+Driver for C12 (executes `PsV.Sync.step?`, `spur?`, `opOf`, `rank`, `selectSeq`, `anyEnabled`, and the data layer
+`stepD?`, `spurD?`, `seqD` of Model/SyncData.lean on symbolic data: `x` = a version number (0 = value on entry, k+1 = entry
+value with the record of trial k copied in), a record = (α index, version of `x` it was computed from)).
 
 Lines
   `R rep n m resid status feas calcs expect tok*`   replay a pthread-call trace of the real `walk_descents`
-        tok = `tid:op:snapshot:owner[:aidx,..]`  (snapshot: one of W/R/T per worker, `-` = not available)
-        reply `ok final=<0|1> deadlock=<0|1> chosen=<k|-> feas=<0|1> calcs=<c> steps=<k>` or `BAD@<i> <why>`
+        tok = `tid:op:snapshot:owner[:aidx,..]`  (snapshot: one of W/R/T per worker, `-` = not available); a worker token
+        `tid:U:..:..:d<aidx>,<xdiff>,<receq>` reports a finished computation (α index read, x changed since entry, record
+        equals the oracle's trial of that index)
+        reply `ok final=<0|1> deadlock=<0|1> chosen=<k|-> feas=<0|1> calcs=<c> steps=<k> xver=<v> cnt=<c0,c1,..> alldone=<0|1>`
+        or `BAD@<i> <why>`
+  `F threads nF fl modfl nH`   `factorUpdate` (modify_factor's update-vs-refactor decision) → `FU <0|1>`
+  `L`                      the lost-wake-up witness of `C12_lost_wakeup_reachable`: `LW n=<n> m=<m> sched=<t,..>`
   `W rep n m resid`        coordinator-starvation schedule produced by the model  → `sched=<t,t,..> end=<final|deadlock|open>`
   `E rep n m resid maxStates maxScheds spur`   breadth-first exploration of the model's state graph →
         `EXP states= trans= deadlocks= finals= complete= results= nsched=` then `S <t,..>` lines (a set of schedules whose
@@ -26,6 +34,15 @@ def mkCfg (rep : Bool) (n m : Nat) (resid : Array (Option Int)) : Cfg :=
       | some (some x), some (some y) => decide (x < y)
       | _, _ => false }
 
+/-- symbolic data: see the header -/
+def mkProb (rep : Bool) (n m : Nat) (resid : Array (Option Int)) : DProb Nat (Nat × Nat) :=
+  { n := n, m := m, repaired := rep, x0 := 0,
+    num := { trial := fun x k => (k, x),
+             lt := fun a b => a.2 == 0 && b.2 == 0 && (match resid[a.1]?, resid[b.1]? with
+               | some (some x), some (some y) => decide (x < y)
+               | _, _ => false),
+             put := fun x r => if x == 0 && r.2 == 0 then r.1 + 1 else 1000000 } }
+
 def stChar : WSt → Char
   | .wait => 'W' | .run => 'R' | .term => 'T'
 
@@ -39,67 +56,115 @@ def chosenStr (s : State) : String :=
   | none => "-"
 def feasStr (s : State) : String := match s.chosen with | some (_, true) => "1" | _ => "0"
 
-/-- one token; returns the new state or an error text -/
-def applyTok (c : Cfg) (s : State) (tok : String) : Except String State := do
+def cpcCode : CPc → Nat
+  | .create k => 100 + k | .join k => 100000 + k | .lockA => 1 | .bcastA => 2 | .unlockA => 3 | .lockB => 4
+  | .condWait => 5 | .waiting => 6 | .woken => 7 | .unlockB => 8 | .lockT => 9 | .bcastT => 10 | .unlockT => 11 | .final => 12
+def wpcCode : WPc → Nat
+  | .idle => 0 | .lock1 => 1 | .hold => 2 | .waiting => 3 | .woken => 4 | .lock2 => 5 | .bcast => 6 | .unlock2 => 7 | .exit => 8 | .done => 9
+def wstCode : WSt → Nat
+  | .wait => 0 | .run => 1 | .term => 2
+def optCode : Option Nat → Nat
+  | none => 0 | some k => k + 1
+
+def keyOf (c : Cfg) (s : State) : String :=
+  let hd := [cpcCode s.cpc, s.blk, optCode s.owner, optCode s.base, s.calcs,
+             match s.chosen with | none => 0 | some (v, f) => 1 + 2 * optCode v + (if f then 1 else 0)]
+  let ws := (List.range c.n).flatMap fun w => [wpcCode (s.wpc w), wstCode (s.st w), s.aidx w, optCode (s.val w)]
+  toString (hd ++ ws)
+
+/-- one token; returns the new state or an error text.  The data model `stepD?` / `spurD?` is executed; its control
+    part must coincide with what `step?` / `spur?` produce (the refinement theorem `C12_data_refines_control`, executed). -/
+def applyTok (P : DProb Nat (Nat × Nat)) (d : DState Nat (Nat × Nat)) (tok : String) : Except String (DState Nat (Nat × Nat)) := do
+  let c := P.cfg
+  let s := d.ctl
   match tok.splitOn ":" with
   | tidS :: opS :: snap :: own :: rest =>
     let some tid := tidS.toNat? | throw s!"bad tid {tok}"
     let op := opS.front
-    let s' ←
+    let (s', d') ←
       if op == 'S' then
-        match spur? c s tid with
-        | some s' => pure s'
-        | none => throw s!"spurious wake-up of {tid} not possible in the model"
+        match spur? c s tid, spurD? P d tid with
+        | some s', some d' => pure (s', d')
+        | _, _ => throw s!"spurious wake-up of {tid} not possible in the model"
       else do
         if opOf s tid != op then throw s!"thread {tid} issued {op} but the model expects {opOf s tid}"
-        match step? c s tid with
-        | some s' =>
+        match step? c s tid, stepD? P d tid with
+        | some s', some d' =>
           if !(rank c s' < rank c s) then throw s!"rank did not decrease ({rank c s} -> {rank c s'})"
-          pure s'
-        | none => throw s!"thread {tid} op {op} not enabled in the model"
+          pure (s', d')
+        | some _, none => throw s!"thread {tid} op {op}: enabled in the hand-shake model but not in the data model"
+        | none, _ => throw s!"thread {tid} op {op} not enabled in the model"
+    if keyOf c s' != keyOf c d'.ctl then throw s!"data model and hand-shake model disagree after {tidS}:{opS}"
     if snap != "-" then
       if snap != snapshot c s' then throw s!"worker states after {tidS}:{opS} are {snap}, model has {snapshot c s'}"
       if own != ownerStr s' then throw s!"mutex owner after {tidS}:{opS} is {own}, model has {ownerStr s'}"
+    -- has this transition opened a compute region (worker saw RUN and unlocked)?
+    let opened := op == 'U' && tid ≥ 1 && s.wpc (tid - 1) == .hold && s.st (tid - 1) == .run
     match rest with
     | [a] =>
-      let idx := a.splitOn ","
-      for (x, w) in idx.zip (List.range c.n) do
-        if x != "x" && x.toNat? != some (s'.aidx w) then
-          throw s!"alpha index of worker {w} is {x}, model has {s'.aidx w}"
-    | _ => pure ()
-    pure s'
+      if a.startsWith "d" then
+        -- the code reports a finished computation of worker tid-1 (observed at the END of its compute region)
+        if !opened then throw s!"thread {tid} reports a computation but the model has not opened a compute region"
+        let w := tid - 1
+        match ((a.drop 1).toString.splitOn ",").map String.toInt? with
+        | [some k, some xdiff, some receq] =>
+          if k != (d'.rda w : Int) then throw s!"worker {w} computed with alpha index {k}, the model's worker read index {d'.rda w}"
+          if k != (s'.blk * c.n + w : Nat) then throw s!"worker {w} computed alpha index {k}, not blk*n+w = {s'.blk * c.n + w}"
+          if (xdiff != 0) != (d'.rdx w != 0) then
+            throw s!"worker {w}: x {if xdiff != 0 then "changed" else "unchanged"} during the run, the model's worker read version {d'.rdx w}"
+          if xdiff != 0 then throw s!"worker {w} computed from an x that is not the entry value"
+          if receq != 1 then throw s!"record of worker {w} (alpha index {k}) differs from the single-threaded trial of that index"
+        | _ => throw s!"bad data field {a}"
+      else
+        if opened && snap != "-" then throw s!"worker {tid - 1} finished a computation without reporting its data"
+        let idx := a.splitOn ","
+        for (x, w) in idx.zip (List.range c.n) do
+          if x != "x" && x.toNat? != some (s'.aidx w) then
+            throw s!"alpha index of worker {w} is {x}, model has {s'.aidx w}"
+    | _ => if opened && snap != "-" then throw s!"worker {tid - 1} finished a computation without reporting its data"
+    pure d'
   | _ => throw s!"bad token {tok}"
 
-def replay (c : Cfg) (toks : List String) : Except String State := do
-  let mut s := init c
+def replay (P : DProb Nat (Nat × Nat)) (toks : List String) : Except String (DState Nat (Nat × Nat)) := do
+  let mut d := initD P
   let mut i := 0
   for t in toks do
-    match applyTok c s t with
-    | .ok s' => s := s'
+    match applyTok P d t with
+    | .ok d' => d := d'
     | .error e => throw s!"BAD@{i} {e}"
     i := i + 1
-  pure s
+  pure d
 
 def isDead (c : Cfg) (s : State) : Bool := !isFinal s && !anyEnabled c s
+
+def allDone (c : Cfg) (s : State) : Bool :=
+  s.owner.isNone && (List.range c.n).all fun w => s.wpc w == .done
 
 def handleR (ws : List String) : String :=
   match ws with
   | rep :: n :: m :: resid :: status :: feas :: calcs :: expect :: toks =>
     match n.toNat?, m.toNat? with
     | some n, some m =>
-      let c := mkCfg (rep == "1") n m (parseResid resid)
-      match replay c toks with
+      let P := mkProb (rep == "1") n m (parseResid resid)
+      let c := P.cfg
+      match replay P toks with
       | .error e => e
-      | .ok s =>
+      | .ok d =>
+        let s := d.ctl
         let fin := isFinal s
         let dead := isDead c s
-        let base := s!"final={if fin then 1 else 0} deadlock={if dead then 1 else 0} chosen={chosenStr s} feas={feasStr s} calcs={s.calcs} steps={toks.length}"
+        let cnts := (List.range m).map d.cnt
+        let base := s!"final={if fin then 1 else 0} deadlock={if dead then 1 else 0} chosen={chosenStr s} feas={feasStr s} calcs={s.calcs} steps={toks.length} xver={d.x} cnt={",".intercalate (cnts.map toString)} alldone={if allDone c s then 1 else 0}"
         if status == "ret" then
           if !fin then s!"BAD@end routine returned but the model is at a non-final state ({base})"
           else if chosenStr s != expect then s!"BAD@end chosen index {chosenStr s} but implementation/oracle {expect} ({base})"
           else if feasStr s != feas then s!"BAD@end feasible {feasStr s} vs {feas} ({base})"
           else if toString s.calcs != calcs then s!"BAD@end residual_calcs {s.calcs} vs {calcs} ({base})"
           else if (s.base, s.chosen) != selectSeq c.less c.m then s!"BAD@end model result differs from selectSeq ({base})"
+          else if d.outputs != seqD P then s!"BAD@end data outputs differ from the single-threaded specification seqD ({base})"
+          else if some d.x != expect.toNat?.map (· + 1) then s!"BAD@end x holds version {d.x}, expected the record of trial {expect} ({base})"
+          else if cnts != (List.range m).map (fun k => if k < s.blk * n then 1 else 0) then s!"BAD@end evaluation counts are not exactly-once over the processed blocks ({base})"
+          else if !allDone c s then s!"BAD@end routine returned but not every worker has exited / mutex owned ({base})"
           else "ok " ++ base
         else if status == "deadlock" then
           if dead then "ok " ++ base else s!"BAD@end implementation deadlocked, model state is not deadlocked ({base})"
@@ -139,22 +204,6 @@ def handleW (ws : List String) : String :=
       s!"sched={schedStr sch} end={if isFinal s then "final" else if isDead c s then "deadlock" else "open"}"
     | _, _ => "bad-input"
   | _ => "bad-input"
-
-def cpcCode : CPc → Nat
-  | .create k => 100 + k | .join k => 100000 + k | .lockA => 1 | .bcastA => 2 | .unlockA => 3 | .lockB => 4
-  | .condWait => 5 | .waiting => 6 | .woken => 7 | .unlockB => 8 | .lockT => 9 | .bcastT => 10 | .unlockT => 11 | .final => 12
-def wpcCode : WPc → Nat
-  | .idle => 0 | .lock1 => 1 | .hold => 2 | .waiting => 3 | .woken => 4 | .lock2 => 5 | .bcast => 6 | .unlock2 => 7 | .exit => 8 | .done => 9
-def wstCode : WSt → Nat
-  | .wait => 0 | .run => 1 | .term => 2
-def optCode : Option Nat → Nat
-  | none => 0 | some k => k + 1
-
-def keyOf (c : Cfg) (s : State) : String :=
-  let hd := [cpcCode s.cpc, s.blk, optCode s.owner, optCode s.base, s.calcs,
-             match s.chosen with | none => 0 | some (v, f) => 1 + 2 * optCode v + (if f then 1 else 0)]
-  let ws := (List.range c.n).flatMap fun w => [wpcCode (s.wpc w), wstCode (s.st w), s.aidx w, optCode (s.val w)]
-  toString (hd ++ ws)
 
 structure Node where
   s : State
@@ -242,6 +291,11 @@ partial def loop (h out : IO.FS.Stream) : IO Unit := do
   match words line with
   | "R" :: rest => out.putStrLn (handleR rest)
   | "W" :: rest => out.putStrLn (handleW rest)
+  | ["F", th, nF, fl, modfl, nH] =>
+    match th.toNat?, nF.toNat?, fl.toNat?, modfl.toNat?, nH.toNat? with
+    | some th, some nF, some fl, some modfl, some nH => out.putStrLn s!"FU {if factorUpdate th true nF fl modfl nH then 1 else 0}"
+    | _, _, _, _, _ => out.putStrLn "bad-input"
+  | "L" :: _ => out.putStrLn s!"LW n={lostWakeupCfg.n} m={lostWakeupCfg.m} rep={if lostWakeupCfg.repaired then 1 else 0} sched={schedStr lostWakeupSchedule}"
   | "E" :: rest => for l in handleE rest do out.putStrLn l
   | _ => out.putStrLn "bad-input"
   loop h out
